@@ -1,4 +1,4 @@
-import Ark.Generated.Facts
+import Ark.Generated.FactsEvents
 import Ark.Proofs.Rejects
 import Ark.Props.C08
 
